@@ -20,6 +20,68 @@ pub enum Case {
     Sealed { spec: MsgSpec, others: Vec<Creds>, seed: u64 },
     /// hand-assembled message validated under `creds` of the spec
     Wire(WireSpec),
+    /// the public HMAC helpers on arbitrary data and keys
+    Helpers { data: Vec<u8>, key: Vec<u8>, pos: u16 },
+}
+
+fn helpers(data: &[u8], key: &[u8], pos: u16, st: &mut Stats) -> TestResult {
+    use stun_types::attribute::{MessageIntegrity, MessageIntegritySha256};
+    let want1 = refimpl::hmac_sha1(key, data);
+    let want2 = refimpl::hmac_sha256(key, data);
+    let got1 = guard(|| MessageIntegrity::compute(data, key)).map_err(|p| Fail::new("c04-panic", format!("MessageIntegrity::compute panicked: {}", p)))?;
+    let got2 = guard(|| MessageIntegritySha256::compute(data, key)).map_err(|p| Fail::new("c04-panic", format!("MessageIntegritySha256::compute panicked: {}", p)))?;
+    ensure!(
+        matches!(got1, Ok(v) if v == want1),
+        "c04-hmac-value",
+        "MessageIntegrity::compute({} data bytes, {} key bytes) = {:?}, HMAC-SHA1 (RFC 2104) is {}",
+        data.len(),
+        key.len(),
+        got1.as_ref().map(|v| hex(v)),
+        hex(&want1)
+    );
+    ensure!(
+        matches!(got2, Ok(v) if v == want2),
+        "c04-hmac-value",
+        "MessageIntegritySha256::compute({} data bytes, {} key bytes) = {:?}, HMAC-SHA256 is {}",
+        data.len(),
+        key.len(),
+        got2.as_ref().map(|v| hex(v)),
+        hex(&want2)
+    );
+    let v1 = guard(|| MessageIntegrity::verify(data, key, &want1)).map_err(|p| Fail::new("c04-panic", p))?;
+    ensure!(v1.is_ok(), "c04-false-fail", "MessageIntegrity::verify refuses the correct HMAC-SHA1 ({} data bytes, {} key bytes): {:?}", data.len(), key.len(), v1);
+    let mut bad1 = want1;
+    bad1[pos as usize % 20] ^= 1 << (pos >> 8 & 7);
+    let v1b = guard(|| MessageIntegrity::verify(data, key, &bad1)).map_err(|p| Fail::new("c04-panic", p))?;
+    ensure!(v1b.is_err(), "c04-false-ok", "MessageIntegrity::verify accepts an HMAC-SHA1 with bit {} of byte {} flipped", pos >> 8 & 7, pos % 20);
+    // data changed, value kept
+    if !data.is_empty() {
+        let mut d = data.to_vec();
+        let at = pos as usize % d.len();
+        d[at] ^= 1 << (pos >> 12 & 7);
+        let v = guard(|| MessageIntegrity::verify(&d, key, &want1)).map_err(|p| Fail::new("c04-panic", p))?;
+        ensure!(v.is_err(), "c04-false-ok", "MessageIntegrity::verify accepts the HMAC of other data (byte {} of {} changed)", at, d.len());
+        let v = guard(|| MessageIntegritySha256::verify(&d, key, &want2)).map_err(|p| Fail::new("c04-panic", p))?;
+        ensure!(v.is_err(), "c04-false-ok", "MessageIntegritySha256::verify accepts the HMAC of other data (byte {} of {} changed)", at, d.len());
+    }
+    // SHA-256: the full value and the truncations RFC 8489 s14.6 allows
+    for l in [32usize, 28, 24, 20, 16] {
+        let v = guard(|| MessageIntegritySha256::verify(data, key, &want2[..l])).map_err(|p| Fail::new("c04-panic", p))?;
+        ensure!(v.is_ok(), "c04-false-fail", "MessageIntegritySha256::verify refuses the correct HMAC-SHA256 truncated to {} bytes: {:?}", l, v);
+        let mut bad = want2[..l].to_vec();
+        bad[pos as usize % l] ^= 1 << (pos >> 8 & 7);
+        let v = guard(|| MessageIntegritySha256::verify(data, key, &bad)).map_err(|p| Fail::new("c04-panic", p))?;
+        ensure!(v.is_err(), "c04-false-ok", "MessageIntegritySha256::verify accepts a {}-byte HMAC-SHA256 with byte {} changed", l, pos as usize % l);
+    }
+    st.class("HMAC helpers: compute / verify on arbitrary data and key");
+    if key.len() > 64 {
+        st.class("HMAC helpers: key longer than a block");
+    }
+    if key.is_empty() {
+        st.class("HMAC helpers: empty key");
+    }
+    st.nontrivial(digest(&(data, key)));
+    Ok(())
 }
 
 fn algo_ty(a: IntegrityAlgorithm) -> u16 {
@@ -98,6 +160,7 @@ fn check_validate(bytes: &[u8], creds: &Creds, st: &mut Stats, what: &str) -> Re
 fn test(c: &Case, st: &mut Stats) -> TestResult {
     st.eval();
     match c {
+        Case::Helpers { data, key, pos } => return helpers(data, key, *pos, st),
         Case::Wire(w) => {
             let bytes = w.bytes();
             if let Some(ok) = check_validate(&bytes, &w.creds, st, "hand-assembled message")? {
@@ -468,7 +531,25 @@ pub fn run(ctx: &Ctx) -> EvidenceMeta {
         },
         test,
     );
-    // the RFC 5769 vectors through the same oracle
+    ctx.proptest(
+        "hmac-helpers",
+        ctx.n(20_000, 1_000_000),
+        || {
+            (
+                prop_oneof![vec(any::<u8>(), 0..70), vec(any::<u8>(), 0..600), (50usize..140).prop_map(|n| vec![0u8; n])],
+                prop_oneof![
+                    vec(any::<u8>(), 0..40),
+                    vec(any::<u8>(), 60..70),
+                    vec(any::<u8>(), 120..140),
+                    vec(any::<u8>(), 0..300),
+                    (0usize..130).prop_map(|n| vec![0u8; n])
+                ],
+                any::<u16>(),
+            )
+                .prop_map(|(data, key, pos)| Case::Helpers { data, key, pos })
+        },
+        test,
+    );
     EvidenceMeta {
         rule: "builder-sealed messages ({SHA-1, SHA-256, both} x {short-term, long-term} credentials over arbitrary UTF-8, with/without \
                FINGERPRINT): (A) integrity values equal reference HMAC-SHA1 / HMAC-SHA256 with key = password | MD5(user:realm:password) \
